@@ -7,3 +7,6 @@ mkdir -p .bin evidence replays
 cd harness
 cp /repo/go.sum go.sum 2>/dev/null || true
 go build -tags verif -o ../.bin/verif ./cmd/verif
+# the race-detector build used by C19 (warms the -race build cache; a failure here is not fatal:
+# ./check C19 builds it again and reports a failing build as inconclusive)
+go build -race -tags verif -o ../.bin/verif-race ./cmd/verif || true
